@@ -10,5 +10,5 @@ CONSTANTS
   PortMaps <- PMmixed
 INIT Init
 NEXT NextJ
-INVARIANTS AllWellFormed SentOk Complete
+INVARIANTS AllWellFormed SentOk Complete AttrAgrees
 CHECK_DEADLOCK FALSE
